@@ -510,6 +510,52 @@ def j6_base_run(carve):
     return _enum_outcome("a source table starts with an empty clause state (Cache and SQL Query): base case of J6", n, bad)
 
 
+def make_s4b(prefix_i):
+    """alias() somewhere BELOW (not directly below) the verb that needs a subquery: prefix >> alias >> V1 >> V2, native Polars vs SQLite"""
+    def run(carve):
+        from .. import pipelines as P
+        from .c13 import _enum_outcome
+
+        C_ = pdt.C
+        B = {st.label: st for st in P.steps()}
+        mk = P.Step
+        prefixes = [
+            [B["mutate(w=row_number)"]],
+            [B["arrange(a.nl,h)"], B["slice_head(3,1)"]],
+            [B["group_by(a)"], B["summarize(n,m)"]],
+            [B["mutate(sm=a.sum)"]],
+            [B["filter(a>1)"], B["mutate(w=row_number)"]],
+            [B["summarize(sa)"]],
+        ]
+        v = [B[l] for l in ("filter(a>1)", "mutate(x=a+h)", "mutate(sm=a.sum)", "mutate(w=row_number)", "arrange(h.desc)", "group_by(a)", "select(h,a)", "left_join(u)")] + [
+            mk("filter(w<=3)", lambda x, c: x >> pdt.filter(C_.w <= 3), "keep", ("w",), False, False),
+            mk("filter(sm>5)", lambda x, c: x >> pdt.filter(C_.sm > 5), "keep", ("sm",), False, False),
+            mk("mutate(tot=h.sum)", lambda x, c: x >> pdt.mutate(tot=C_.h.sum()), "keep", ("h",), False, False),
+            mk("mutate(tot=m.sum)", lambda x, c: x >> pdt.mutate(tot=C_.m.sum()), "keep", ("m",), False, False),
+            mk("filter(n>1)", lambda x, c: x >> pdt.filter(C_.n > 1), "keep", ("n",), False, False),
+            mk("summarize(k=count)", lambda x, c: x >> pdt.summarize(k=pdt.count()), "destroy", (), False, False),
+            mk("summarize(k=sa.max)", lambda x, c: x >> pdt.summarize(k=C_.sa.max()), "destroy", ("sa",), False, False),
+        ]
+        n, bad, refused = 0, [], 0
+        pre = prefixes[prefix_i]
+        for v1 in v:
+            for v2 in v:
+                pipe = pre + [B["alias"], v1, v2]
+                r = P.compare(pipe, "mixed")
+                if r is None:
+                    continue
+                n += 1
+                if r[0] == "mismatch":
+                    bad.append(r[1])
+                elif r[0] == "refused":
+                    refused += 1
+        out = _enum_outcome(f"{' >> '.join(s_.label for s_ in pre)} >> alias >> V1 >> V2: whenever SQL accepts the pipeline its result equals the Polars result (the alias is not directly below the verb that needs the subquery)", n, bad)
+        out.notes = [f"refused by SQL: {refused}"]
+        return out
+
+    return run
+
+
 def obligations(tier):
     fi = H.fn_info
     fns = [fi(TS.Cache.requires_subquery), fi(TS.Cache.update), fi(pdt._internal.pipe.pipeable.check_subquery), fi(pdt._internal.pipe.pipeable.modify_ast), fi(H.sql_backend.SqlImpl.compile_ast), fi(H.sql_backend.SqlImpl.compile_query)]
@@ -527,6 +573,9 @@ def obligations(tier):
             if not ok and (tier == "thorough" or (not s.filtered and not s.ordered)):
                 obs.append(Obligation(f"C08/S4/{tag}/{label}", "S4+S7", f"alias() >> {label} in state {s}", make_s4(s, label, verb, fkw, fn), functions=fns, bounded="same state enumeration", replayer=make_replayer(s, label, fn, with_alias=True),
                                       carveouts={"whole": ""}))
+    for i in range(6):
+        obs.append(Obligation(f"C08/S4b/prefix{i}", "S4", "alias() several verbs below the verb that needs a subquery: accepted pipelines equal Polars (native)", make_s4b(i), functions=fns,
+                              bounded="one state-producing prefix >> alias >> V1 >> V2 for 15 x 15 verbs on one input table; native execution on Polars and SQLite"))
     obs.append(Obligation("C08/J6/base", "J6", "base case: empty clause state of a source table", j6_base_run, functions=[fi(TS.Cache.from_ast), fi(H.sql_backend.SqlImpl.compile_ast)], bounded="one source table per backend (the constructor takes no other input that influences the clause state)"))
     obs.append(Obligation("C08/S6/sql", "S6", "LIMIT/OFFSET composition of consecutive slice_head (symbolic n, offsets)", make_s6("sql"), functions=[fi(H.sql_backend.SqlImpl.compile_ast)], carveouts={"offset_le_limit": "second offset within the first slice"}, replayer=replay_s6))
     obs.append(Obligation("C08/S6/polars", "S6", "Polars applies slice(offset, n) to the current frame", make_s6("polars"), functions=[fi(H.polars_backend.compile_ast)]))
